@@ -13,7 +13,7 @@ pub fn meta() -> Meta {
         rule: "exhaustive: all 65536 flag words x ids {0,1,0x1234,0xffff} as 12-byte headers through Packet::parse (Z set => Err; else id, each of \
 the 7 flags, opcode and rcode equal an 8-line bit model), through the eight header_buffer peeks (also with counts {0,1,0xff,0xff00,0xffff} in each \
 slot) and through re-serialisation (same id, zero counts, identical flag word when opcode and rcode are named, identical outside those fields \
-otherwise); all 128x128 pairs of flag sets x named opcodes x rcodes for set_flags/remove_flags/has_flags (incl. multi-flag queries); every named \
+otherwise); every non-Z flag word again in a message that also carries an OPT record with arbitrary VERSION / flags and extended RCODE 0 (same fields, same re-serialised word); all 128x128 pairs of flag sets x named opcodes x rcodes for set_flags/remove_flags/has_flags (incl. multi-flag queries); every named \
 opcode x rcode x 128 subsets on the build side via new_query/new_reply/opcode_mut/rcode_mut; section counts for 0..3 entries per section. \
 non-trivial = every case (each exercises a distinct header); distinct = hash of the case descriptor",
         assumptions: &["the bit model is written from RFC 1035 4.1.1 / RFC 2535 (AD, CD)"],
@@ -247,6 +247,60 @@ pub fn run(ctx: &mut Ctx) {
             }
         }
         ctx.sample("algebra", || json!({"pairs": 16384}));
+    }
+
+    // ---- every header word in a message that also carries an OPT pseudo-record ------------------------------
+    // The header's own fields must read the same whatever VERSION and flags the OPT record holds (extended RCODE 0, so that
+    // the response code is the header's nibble), and a re-serialised message carries the same flag word.
+    if ctx.family_active("word-edns") {
+        for w in 0..=65535u16 {
+            let idx = w as u64;
+            if w & 0x0040 != 0 || !ctx.take("word-edns", idx) {
+                continue;
+            }
+            let version = (w.wrapping_mul(37).wrapping_add(11) >> 3) as u8;
+            let eflags = w.rotate_left(7) ^ 0x8001;
+            let id = w ^ 0x55AA;
+            let mut b = hdr(id, w, [0, 0, 0, 1]).to_vec();
+            b.extend_from_slice(&[0, 0, 41, 0x04, 0xD0, 0, version]);
+            b.extend_from_slice(&eflags.to_be_bytes());
+            b.extend_from_slice(&[0, 0]);
+            let case = || json!({"family": "word-edns", "idx": idx, "bytes": hex(&b)});
+            ctx.case(true, 0xED_0000_0000 ^ idx);
+            let r = monitor::guard(|| {
+                Packet::parse(&b).map(|p| {
+                    let out = p.build_bytes_vec();
+                    (p.id(), bridge::obs_flags(&p), bridge::obs_opcode(p.opcode()), bridge::obs_rcode(p.rcode()), p.opt().map(|o| o.version), out)
+                })
+            });
+            match r {
+                Err(pn) => ctx.panic_violation("Packet::parse(header + OPT)", &pn, case()),
+                Ok(Err(e)) => ctx.violation("parse-header", "valid-header-with-opt-rejected", format!("flag word {:#06x} with an OPT record (version {}) rejected: {:?}", w, version, e), case()),
+                Ok(Ok((pid, flags, op, rc, ver, out))) => {
+                    let mut bad = Vec::new();
+                    if pid != id { bad.push(format!("id {} read as {}", id, pid)); }
+                    if flags != w & FLAG_MASK { bad.push(format!("flag bits {:#06x} vs model {:#06x}", flags, w & FLAG_MASK)); }
+                    if op != model_opcode(w) { bad.push(format!("opcode {} vs model {}", op, model_opcode(w))); }
+                    if rc != model_rcode_low(w) { bad.push(format!("rcode {} vs model {} (extended RCODE is 0, VERSION {})", rc, model_rcode_low(w), version)); }
+                    if ver != Some(version) { bad.push(format!("EDNS version {:?} vs {}", ver, version)); }
+                    let named = model_opcode(w) != OPCODE_RESERVED && model_rcode_low(w) != RCODE_RESERVED;
+                    match &out {
+                        Ok(o) if o.len() >= 12 => {
+                            let ow = u16::from_be_bytes([o[2], o[3]]);
+                            if named && ow != w { bad.push(format!("re-serialised flag word {:#06x} vs {:#06x}", ow, w)); }
+                            if o[0..2] != b[0..2] || o[4..12] != b[4..12] { bad.push("re-serialised id or counts differ".to_string()); }
+                        }
+                        other => bad.push(format!("re-serialisation failed: {:?}", other.as_ref().map(|o| o.len()))),
+                    }
+                    if bad.is_empty() {
+                        ctx.count("headers_with_opt_agree");
+                    } else {
+                        ctx.violation("parse-header", "header-with-opt-differs", format!("flag word {:#06x} in a message with an OPT record: {}", w, bad.join("; ")), case());
+                    }
+                }
+            }
+        }
+        ctx.sample("word-edns", || json!({"words": 32768, "versions": "all 0..255", "opt_flags": "derived from the word"}));
     }
 
     // ---- build side: named opcode x rcode x subsets, new_query / new_reply -------------------------
